@@ -31,7 +31,10 @@ RULE = ('random ambiguous grammars (<=4 non-terminals, <=3 alternatives of lengt
         'Coq evaluates to_tree_explicit on it and compares with lark\'s tree (nested _ambig flattened on both sides), checks '
         'the well-formedness hypothesis of the theorem on the exported forest, and CollapseAmbiguities against collapse; '
         'Python oracle: brute-force derivations of the compiled BNF shaped independently vs expansion of lark\'s tree as sets; '
-        'cyclic stream: termination + every tree is the shape of a derivation; ignore stream: grammars with one or several '
+        'cyclic stream: termination + every tree is the shape of a derivation, and the captured forest as a numbered '
+        '(cyclic) graph given to Forest/ExplicitGraph.graph_explicit, whose tree must equal lark\'s exactly (cycle retreat, '
+        'packed-node cache); cyclic-corpus stream (fixed): 18 cyclic grammars covering every shape of cycle the walk '
+        'distinguishes, same comparisons; ignore stream: grammars with one or several '
         '(also overlapping) %ignore terminals, half of them ambiguous at the root between differently shaped start '
         'alternatives (aliases, _rules, ?rules, filtered/kept tokens), inputs with leading/inner/trailing ignored text, '
         'oracle at character level with ignored text allowed before every token and after the last one; '
@@ -53,6 +56,8 @@ RULE = ('random ambiguous grammars (<=4 non-terminals, <=3 alternatives of lengt
         'non-trivial = distinct (grammar, lexer, input) whose explicit tree contains at least one _ambig')
 TRUSTED_BASE = ['hand model Forest/ExplicitToTree.v of ForestToParseTree(resolve_ambiguity=False) and the rule callback chain, '
                 'tied by structural comparison on forests captured inside Lark.parse',
+                'hand model Forest/ExplicitGraph.v of the explicit-mode walk on cyclic forests (on_cycle retreat, _successful_visits, '
+                'packed-node cache), tied by exact comparison of the returned tree on numbered forest graphs',
                 'forest export (unfolding of the shared SPPF into a tree; rule records read from Rule objects)',
                 'Python oracle (brute-force derivation enumeration + independent shaping) for the failing-input search and '
                 'for completeness of the parser->forest layer (A_complete_partial)']
